@@ -568,3 +568,7 @@ def run(ctx):
     rule_args(ctx)
     rule_prefix_only(ctx)
     rule_style_cache(ctx)
+    # the module reader sits on top of the three strategies: it passes offset and length through unchanged (same rule instance as C14/module-read-verbatim)
+    from rules import c14 as _c14v
+    _c14v.rule_process_read_verbatim(ctx, R="C17/module-read-verbatim")
+
